@@ -298,3 +298,9 @@ for _i in ("tr", "kw", "none"):
         _c = _mk(_i, _s)
         VER_CLASSES[(_i, _s)] = _c
         globals()[_c.__name__] = _c
+
+
+# two different simulator classes that happen to have the same __name__ (as two packages that both
+# call their class "Simulator" do): one current-API, one old-API
+SameNameNew = type("SameName", (VER_CLASSES[("tr", "a3")],), {})
+SameNameOld = type("SameName", (VER_CLASSES[("none", "a2")],), {})
